@@ -12,6 +12,9 @@ TRUSTED_BASE = [
     "float mode, model rtol 1e-6 / oracle 1e-9 (max-norm) on eigenspectra and the class PSD, plus a per-bin relative 1e-9 check of "
     "the class PSD on bins above 1e-12*max; adaptive weights: 1e-9 against Thomson's formula at the spectrum recovered from the "
     "least concentrated taper, 1e-6 against the oracle's own numpy iteration (the iteration stops on a tolerance)",
+    "histories: the reference mean uses numpy eigenspectra of the implementation's tapers and, for 'adapt', the weights pmtm "
+    "returns for the current configuration (those are tied to Thomson's formula by the 'pmtm' cases); the layouts other than the "
+    "default one follow C06's conversion rule; the Lean model is run on the configuration the history ends with",
     "records of 1000 and 1024 samples are checked by the oracle only (numpy reference of the iteration); the Lean model is "
     "executed up to 777 samples",
 ]
@@ -24,11 +27,30 @@ PARTIAL = ["'the spectrum the iteration converged to': the theorem is about the 
            "[0, 1/eigenvalue] is exceeded (see the PENDING-FINDING in gen)"]
 ASSUMPTIONS = ["k >= 2 tapers for method='adapt' (the code's initial estimate averages the first two eigenspectra)",
                "MultiTapering.NW/k/method/e/v are plain attributes: assigning them does not invalidate a cached psd; the "
-               "'reuse' oracle re-runs the instance explicitly and nothing is asserted on the lazy read"]
+               "'reuse' and 'history' oracles re-run the instance explicitly (p() / p.run()) after such an assignment and nothing "
+               "is asserted on the lazy read; nothing is asserted on the Sk / weights / eigenvalues attributes while a "
+               "recomputation is pending (they are compared once psd has been read)",
+               "histories: after data is re-assigned NFFT stays >= the new length; supplied tapers are only combined with data "
+               "of the length they were computed for; complex data shown 'onesided' is not in the domain (the assignment is "
+               "refused once a psd exists -- the history goes on and the object must still be right); the non-default layouts "
+               "are those of C06 (interior one-sided values split equally between +f and -f, DC and Nyquist values kept); "
+               "scale_by_freq multiplies by 2*pi/df with df = sampling/NFFT as documented"]
 RULE = ("real/complex data (noise, tones, constant, trend, integer-valued, integer dtype, complex with zero imaginary part, "
         "lists, wide dynamic range) of length 16..128 (512 in thorough; 600 in the defaults family; 777, 1000, 1024 in thorough) "
         "x NW in {0.5, 0.75, 1 .. 4, 6 .. 8} (float and int) x k in 1..2NW and above 2NW x NFFT >= N (even/odd) and the default "
-        "NFFT x method in {unity, eigen, adapt} and the default method x tapers computed vs supplied (function and class)")
+        "NFFT x method in {unity, eigen, adapt} and the default method x tapers computed vs supplied (function and class); "
+        "operation histories on one MultiTapering object (kind 'history': real/complex data of length 21..64 (128 in thorough), "
+        "NFFT even/odd, three methods, sampling in {1, 2, 0.5, 3, 1000, 44100} int and float, scale_by_freq on/off, tapers computed "
+        "or supplied): sides assigned ('twosided', 'centerdc', 'onesided', 'default') before the first evaluation or after one, "
+        "followed by a recomputation -- p(), p.run(), the first psd read / get_converted_psd, or lazily after re-assigning data "
+        "(same type, other type, shorter, reversed), sampling, scale_by_freq, NFFT; NW / k / method / tapers re-assigned then "
+        "p(); attributes read while a recomputation is pending; a failing evaluation (unknown method) in between -- 21 trigger "
+        "families x {real, complex} x {even, odd} x 3 methods (quick: one half of that grid, chosen by the seed) plus random "
+        "sequences of 3..11 operations.  After every operation that leaves an up-to-date estimate: len(psd) == "
+        "len(frequencies()), psd real / finite / non-negative and equal (1e-9 max-norm and per bin) to the folded, doubled mean "
+        "of weight*|eigenspectrum|^2 of the CURRENT data and configuration carried to the frequencies of the layout the object "
+        "reports; get_converted_psd likewise; the Sk / weights / eigenvalues attributes equal pmtm's triple for the current "
+        "configuration; the psd the history ends with is compared with the Lean model of pmtm + class mean")
 
 
 def _sp():
@@ -300,6 +322,317 @@ def oracle_reuse(p):
     return out
 
 
+# --------------------------------------------------------------------------------------------------
+# operation histories on one MultiTapering object ("whatever was done with the object before the estimate is (re)computed")
+
+_ATTRS = ("NW", "k", "method")
+
+
+def _hist_cfg(p):
+    """the configuration the object starts with"""
+    return {"x": p["x"], "NW": p["NW"], "k": p["k"], "nfft": p["nfft"], "method": p["method"], "sampling": p["sampling"],
+            "scale": p["scale"], "ev": ([p["NW"], p["k"]] if p["supplied"] else None)}
+
+
+def _hist_step(cfg, op, p):
+    """the configuration after one operation (what a reader of the public documentation expects the object to hold)"""
+    name = op[0]
+    if name == "data":
+        cfg["x"] = p["xs"][op[1]]
+    elif name == "sampling":
+        cfg["sampling"] = op[1]
+    elif name == "scale":
+        cfg["scale"] = op[1]
+    elif name == "nfft":
+        cfg["nfft"] = op[1]
+    elif name in _ATTRS:
+        cfg[name] = op[1]
+    elif name == "ev":
+        cfg["ev"] = None if op[1] is None else [op[1], op[2]]
+    return cfg
+
+
+def _hist_tapers(cfg):
+    N = len(cfg["x"])
+    return _tapers(N, *cfg["ev"]) if cfg["ev"] is not None else _tapers(N, cfg["NW"], cfg["k"])
+
+
+def _hist_do(P, op, p, cfg):
+    """apply one operation to the object through its public interface"""
+    name = op[0]
+    if name == "call":
+        P()
+    elif name == "run":
+        P.run()
+    elif name == "read":
+        P.psd
+    elif name == "sides":
+        try:
+            P.sides = op[1]
+        except AssertionError:
+            # one-sided layout of complex data is refused (only once a psd exists); the object must stay usable
+            if not (op[1] == "onesided" and P.datatype == "complex"):
+                raise
+    elif name == "get":
+        try:
+            P.get_converted_psd(op[1])
+        except AssertionError:
+            if not (op[1] == "onesided" and P.datatype == "complex"):
+                raise
+    elif name == "data":
+        P.data = p["xs"][op[1]]
+    elif name == "sampling":
+        P.sampling = op[1]
+    elif name == "scale":
+        P.scale_by_freq = op[1]
+    elif name == "nfft":
+        P.NFFT = op[1]
+    elif name in _ATTRS:
+        setattr(P, name, op[1])
+    elif name == "ev":
+        if op[1] is None:
+            P.e, P.v = None, None
+        else:
+            v, e = _tapers(len(cfg["x"]), op[1], op[2])
+            P.v, P.e = v, e
+    elif name == "attrs":
+        # reading what the object exposes must not disturb the pending computation
+        for a in ("Sk", "weights", "eigenvalues"):
+            getattr(P, a, None)
+        P.frequencies()
+        P.df
+    elif name == "bogus":
+        # a computation that fails inside the history (unknown weighting): the object must recover afterwards
+        keep = P.method
+        P.method = "bogus"
+        try:
+            if op[1] == "call":
+                P()
+            else:
+                P.psd
+        except Exception:
+            pass
+        P.method = keep
+    else:
+        raise ValueError("harness: unknown operation %r" % (op,))
+
+
+def _hist_new(p):
+    sp = _sp()
+    cfg = _hist_cfg(p)
+    kw = {}
+    if p["supplied"]:
+        v, e = _hist_tapers(cfg)
+        kw = {"e": e, "v": v}
+        if p.get("nwk_too"):
+            kw.update(NW=p["NW"], k=p["k"])
+    else:
+        kw = {"NW": p["NW"], "k": p["k"]}
+    P = sp.MultiTapering(p["x"], NFFT=p["nfft"], method=p["method"], scale_by_freq=p["scale"], sampling=p["sampling"], **kw)
+    return P, cfg
+
+
+def _hist_bins(fr, cfg):
+    """frequencies() entries as DFT bin numbers (may be negative for 'centerdc')"""
+    q = np.asarray(fr, dtype=float) * cfg["nfft"] / float(cfg["sampling"])
+    b = np.rint(q)
+    return b.astype(int), (float(np.max(np.abs(q - b))) if q.size else 0.0)
+
+
+def _hist_layout(S2, real, nfft, bins, onesided):
+    """the two-sided mean S2 (one value per DFT bin) laid out on the axis whose entries are the DFT bins `bins`:
+    real data: the class folds (first half, every value doubled); the other layouts of that one-sided vector split interior
+    values equally between +f and -f and keep the DC / Nyquist values (C06's rule).  complex data: the value of the bin."""
+    S2 = np.asarray(S2, dtype=float)
+    if not real:
+        return S2[np.mod(bins, nfft)]
+    L = nfft // 2 + 1
+    h = S2[:L]
+    if onesided:
+        return 2 * h[bins]
+    t = np.empty(nfft)
+    t[:L] = h
+    t[nfft - np.arange(1, L)] = h[1:]
+    t[0] *= 2
+    if nfft % 2 == 0:
+        t[nfft // 2] *= 2
+    return t[np.mod(bins, nfft)]
+
+
+def _hist_scale(cfg):
+    # scale_by_freq: "scale the PSD by 2*pi/df", df = sampling/NFFT
+    return 2 * np.pi / (float(cfg["sampling"]) / cfg["nfft"]) if cfg["scale"] else 1.0
+
+
+def _hist_ref(cfg, cache):
+    """two-sided weighted mean for a configuration: eigenspectra by numpy from the implementation's tapers; weights 1 /
+    eigenvalue/(index+1) / the adaptive weights pmtm returns for this configuration (checked against Thomson's formula by the
+    'pmtm' kind).  Also the pmtm triple itself (class-vs-function consistency)."""
+    x = np.asarray(cfg["x"])
+    key = (id(cfg["x"]), repr(cfg["NW"]), repr(cfg["k"]), cfg["nfft"], cfg["method"], repr(cfg["ev"]))
+    if key in cache:
+        return cache[key]
+    sp = _sp()
+    v, e = _hist_tapers(cfg)
+    nfft = cfg["nfft"]
+    kw = {"e": e, "v": v} if cfg["ev"] is not None else {"NW": cfg["NW"], "k": cfg["k"]}
+    Skp, w, ev = sp.pmtm(cfg["x"], NFFT=nfft, method=cfg["method"], show=False, **kw)
+    Skp, w, ev = np.asarray(Skp), np.asarray(w), np.asarray(ev)
+    SkA = np.abs(np.array([np.fft.fft(v[:, i] * x, nfft) for i in range(v.shape[1])])) ** 2
+    if cfg["method"] == "unity":
+        W = np.ones((v.shape[1], 1))
+    elif cfg["method"] == "eigen":
+        W = np.array([e[i] / (i + 1) for i in range(len(e))]).reshape(-1, 1)
+    else:
+        W = w.T
+    S2 = np.mean(W * SkA, axis=0)
+    # the same mean from the function's own triple, as the class documents it ("mean(Sk * weights)")
+    A = np.abs(Skp) ** 2
+    S2f = np.mean(A.T * w, axis=1) if cfg["method"] == "adapt" else np.mean(A * w, axis=0)
+    cache[key] = (S2, S2f, w, ev)
+    return cache[key]
+
+
+def _hist_check(P, cfg, cache, where, out):
+    """the value clause at one point of a history: the stored psd, in the layout the object reports, is the (folded, doubled)
+    mean over tapers of weight*|eigenspectrum|^2 of the CURRENT data and configuration, on the frequencies() axis"""
+    psd = np.asarray(P.psd)          # first: a pending computation resets `sides`
+    sides = P.sides
+    fr = P.frequencies()
+    x = np.asarray(cfg["x"])
+    real = np.isrealobj(x)
+    nfft = cfg["nfft"]
+    desc = "%s data, N=%d NFFT=%d method %s, sides %r" % ("real" if real else "complex", len(x), nfft, cfg["method"], sides)
+    if psd.ndim != 1 or len(psd) != len(fr):
+        out.append("%s: len(psd) = %s but frequencies() has %d entries (%s)" % (where, "x".join(str(t) for t in psd.shape), len(fr), desc))
+        return False
+    if np.iscomplexobj(psd) or not np.all(np.isfinite(psd)) or np.any(psd < 0):
+        out.append("%s: psd is not real, finite and non-negative (%s)" % (where, desc))
+        return False
+    bins, off = _hist_bins(fr, cfg)
+    if off > 1e-6 or np.any(bins >= nfft) or np.any(bins < -nfft):
+        out.append("%s: frequencies() entries are not multiples of sampling/NFFT inside one period (%s)" % (where, desc))
+        return False
+    onesided = sides == "onesided"
+    if onesided and (not real or np.any(bins < 0) or np.any(bins > nfft // 2)):
+        out.append("%s: a one-sided layout is reported for %s" % (where, desc))
+        return False
+    S2, S2f, w, ev = _hist_ref(cfg, cache)
+    exp = _hist_layout(S2, real, nfft, bins, onesided) * _hist_scale(cfg)
+    # tolerances, measured on the unchanged code over 6 624 thorough-tier histories (35 374 check points, seeds 0..11): worst
+    # max-norm deviation 4.9e-16, worst per-bin relative deviation 6.3e-16 (get_converted_psd: 4.4e-16), Sk / weights /
+    # eigenvalues attributes bit-identical to pmtm's (0.0).  Limits: 1e-9 (as for the plain 'pmtm' cases, > 1e6 x the worst
+    # observed) and 1e-12 for the attributes.  Model comparison of the final psd: worst 1.5e-15 over 780 histories, limit
+    # 1e-6 as for the 'pmtm' kind (the adaptive loop stops on a tolerance)
+    if rel(psd, exp) > 1e-9:
+        out.append("%s: psd is not the mean over tapers of weight*|eigenspectrum|^2 (folded and doubled for real data) of the "
+                   "current configuration, laid out on frequencies(): max-norm deviation %.2e (%s)" % (where, rel(psd, exp), desc))
+        return False
+    big = exp > 1e-12 * np.max(exp)
+    if np.any(big) and np.max(np.abs(psd[big] - exp[big]) / exp[big]) > 1e-9:
+        out.append("%s: psd differs bin-by-bin from the weighted mean of the current configuration: max relative deviation "
+                   "%.2e (%s)" % (where, np.max(np.abs(psd[big] - exp[big]) / exp[big]), desc))
+        return False
+    # what the object exposes next to psd belongs to the same evaluation, and agrees with the function
+    Sk = getattr(P, "Sk", None)
+    if Sk is None or np.asarray(Sk).shape != S2f.shape or rel(np.asarray(Sk), S2f) > 1e-12:
+        out.append("%s: the Sk attribute is not the two-sided mean(|Sk|^2 * weights) of pmtm's triple for the current "
+                   "configuration (%s)" % (where, desc))
+        return False
+    if np.asarray(P.weights).shape != w.shape or rel(np.asarray(P.weights, dtype=complex), w.astype(complex)) > 1e-12 \
+            or rel(np.asarray(P.eigenvalues), ev) > 1e-12:
+        out.append("%s: the weights / eigenvalues attributes are not those pmtm returns for the current configuration (%s)" % (
+            where, desc))
+        return False
+    return True
+
+
+def _hist_text(ops, i):
+    return "after " + " ; ".join("%s%s" % (o[0], ("=" + ",".join(repr(a) for a in o[1:])) if len(o) > 1 else "") for o in ops[:i + 1])
+
+
+def _hist_run(p, check):
+    """run the history; with check: evaluate the value clause after every operation that leaves an up-to-date estimate"""
+    out = []
+    cache = {}
+    P, cfg = _hist_new(p)
+    computed = False
+    ops = p["ops"]
+    for i, op in enumerate(ops):
+        _hist_do(P, op, p, cfg)
+        cfg = _hist_step(cfg, op, p)
+        if op[0] in ("call", "run", "read", "get"):
+            computed = True
+        if not check:
+            continue
+        if op[0] in ("call", "run", "read") or (op[0] in ("sides", "get") and computed):
+            if not _hist_check(P, cfg, cache, _hist_text(ops, i), out):
+                return P, cfg, out
+        if op[0] == "get" and not (op[1] == "onesided" and P.datatype == "complex"):
+            g = np.asarray(P.get_converted_psd(op[1]))
+            fr = P.frequencies(op[1])
+            x = np.asarray(cfg["x"])
+            bins, off = _hist_bins(fr, cfg)
+            if g.ndim != 1 or len(g) != len(fr) or off > 1e-6:
+                out.append("%s: get_converted_psd(%r) has shape %s, frequencies(%r) has %d entries" % (
+                    _hist_text(ops, i), op[1], g.shape, op[1], len(fr)))
+                return P, cfg, out
+            exp = _hist_layout(_hist_ref(cfg, cache)[0], np.isrealobj(x), cfg["nfft"], bins, op[1] == "onesided") * _hist_scale(cfg)
+            if rel(g, exp) > 1e-9:
+                out.append("%s: get_converted_psd(%r) does not carry the weighted mean to the frequencies of that layout: %.2e" % (
+                    _hist_text(ops, i), op[1], rel(g, exp)))
+                return P, cfg, out
+    return P, cfg, out
+
+
+def oracle_history(p):
+    snap = (_snapshot(p["x"]), [_snapshot(t) for t in p["xs"]])
+    P, cfg, out = _hist_run(p, True)
+    if not out:
+        # the estimate the history ends with (a lazy recomputation may still be pending here)
+        _hist_check(P, cfg, {}, "at the end of " + _hist_text(p["ops"], len(p["ops"]))[6:], out)
+    if (_snapshot(p["x"]), [_snapshot(t) for t in p["xs"]]) != snap:
+        out.append("the history modified the caller's data")
+    return out
+
+
+def impl_history(p):
+    """the psd the history ends with, its layout as DFT bin numbers, and the one-sided flag"""
+    P, cfg, _ = _hist_run(p, False)
+    psd = np.asarray(P.psd)
+    sides = P.sides
+    bins, _ = _hist_bins(P.frequencies(), cfg)
+    return [psd, bins.astype(float), np.array([1.0 if sides == "onesided" else 0.0])]
+
+
+def _hist_final(p):
+    cfg = _hist_cfg(p)
+    for op in p["ops"]:
+        cfg = _hist_step(cfg, op, p)
+    return cfg
+
+
+def model_history(p):
+    """the Lean model of pmtm + class mean for the configuration the history ends with (the model knows no histories: the
+    statement is that the history does not matter)"""
+    cfg = _hist_final(p)
+    v, e = _hist_tapers(cfg)
+    return ("F", proto.request("mtm", "F", [cfg["method"], cfg["nfft"]],
+                               [np.asarray(cfg["x"]), e, [0.0005]] + [v[:, i] for i in range(v.shape[1])]))
+
+
+def post_history(p, iv, mv):
+    cfg = _hist_final(p)
+    psd, bins, one = iv
+    bins = np.asarray(bins).real.astype(int)
+    nfft = cfg["nfft"]
+    mean = np.asarray(mv[-1]).real
+    if bins.size == 0 or np.any(bins >= nfft) or np.any(bins < -nfft) or (one[0] and np.any((bins < 0) | (bins > nfft // 2))):
+        return [psd], [np.zeros(0)]          # reported as a length disagreement
+    exp = _hist_layout(mean, np.isrealobj(np.asarray(cfg["x"])), nfft, bins, bool(one[0])) * _hist_scale(cfg)
+    return [psd], [exp]
+
+
 def _key(p):
     x = np.asarray(p["x"])
     return "%d|%s|%s|%s|%s|%s|%d" % (len(x), p["NW"], p["k"], p.get("nfft"), p.get("method"), np.iscomplexobj(x),
@@ -338,6 +671,34 @@ KINDS = {
 }
 
 
+def _hist_tags(p):
+    x = np.asarray(p["x"])
+    ops = p["ops"]
+    t = ["history", "hist:" + ("complex" if np.iscomplexobj(x) else "real"), "hist:method:" + p["method"],
+         "hist:nfft:" + ("odd" if p["nfft"] % 2 else "even"), "hist:" + p["family"]]
+    names = [o[0] for o in ops]
+    first = next((i for i, n in enumerate(names) if n in ("call", "run", "read", "get")), len(ops))
+    if "sides" in names[:first]:
+        t.append("hist:sides before the first evaluation")
+    if "sides" in names[first:]:
+        t.append("hist:sides after an evaluation")
+    for s in sorted({o[1] for o in ops if o[0] == "sides"}):
+        t.append("hist:sides=" + s)
+    for n in sorted(set(names) - {"sides"}):
+        t.append("hist:op:" + n)
+    if p["supplied"]:
+        t.append("hist:supplied tapers")
+    if p["scale"]:
+        t.append("hist:scale_by_freq")
+    kinds = {np.iscomplexobj(np.asarray(p["xs"][o[1]])) for o in ops if o[0] == "data"}
+    if kinds and kinds != {np.iscomplexobj(x)}:
+        t.append("hist:data type switched")
+    return t
+
+
+KINDS["history"] = {"oracle": oracle_history, "impl": impl_history, "model": model_history, "post": post_history,
+                    "rtol": 1e-6, "atol": 0.0,
+                    "key": lambda p: "hist|%s|%s|%s|%s" % (p["ops"], p["sampling"], p["scale"], _key(p)), "tags": _hist_tags}
 KINDS["single"] = single.kind("C19")
 
 # (N, NW, k, NFFT): more tapers than 2NW (small eigenvalues, large 1/eigenvalue), NW <= 1, integer-typed NW, 16 samples with 8 tapers
@@ -348,6 +709,145 @@ DEFAULT_N = [16, 100, 256, 257, 300, 600]
 
 def _inp(x, dk, cplx):
     return x if dk != "list" else [complex(t) if cplx else float(t) for t in x]
+
+
+_SIDES = ["twosided", "centerdc", "onesided"]
+_SAMPLINGS = [1, 1.0, 2.0, 0.5, 1000.0, 44100, 3]
+_HKINDS = ["noise", "tone", "trend", "int", "const", "dyn", "list", "intdtype", "czero"]
+
+
+def _hist_triggers(s, s2, s3, c):
+    """(family, operations): every way the estimate gets (re)computed while the object shows layout s -- chosen after a first
+    evaluation or before any -- followed by a look at the other layouts.  c: small integers/values for the re-assignments."""
+    T = [
+        ("explicit p()", [["call"], ["sides", s], ["call"]]),
+        ("explicit run()", [["call"], ["sides", s], ["run"]]),
+        ("first p()", [["sides", s], ["call"]]),
+        ("first read", [["sides", s], ["read"]]),
+        ("first run()", [["sides", s], ["run"]]),
+        ("first get", [["sides", s], ["get", s2]]),
+        ("lazy: data", [["call"], ["sides", s], ["data", 0], ["read"]]),
+        ("lazy: sampling", [["read"], ["sides", s], ["sampling", c["sampling"]], ["read"]]),
+        ("lazy: scale_by_freq", [["call"], ["sides", s], ["scale", c["scale"]], ["read"]]),
+        ("NW then p()", [["call"], ["sides", s], ["NW", c["NW"]], ["call"]]),
+        ("k then run()", [["call"], ["sides", s], ["k", c["k"]], ["run"]]),
+        ("method then p()", [["call"], ["sides", s], ["method", c["method"]], ["call"]]),
+        ("lazy: data of the other type", [["call"], ["sides", s], ["data", 1], ["read"]]),
+        ("lazy: data then get", [["call"], ["sides", s], ["data", 3], ["get", s2]]),
+        ("lazy: shorter data then sides", [["read"], ["sides", s], ["data", 2], ["sides", s2]]),
+        ("attributes read first", [["call"], ["data", 0], ["attrs"], ["sides", s], ["attrs"], ["call"]]),
+        ("NFFT then p()", [["call"], ["sides", s], ["nfft", c["nfft"]], ["read"], ["sides", s], ["call"]]),
+        ("failing p() inside", [["call"], ["sides", s], ["bogus", "call"], ["call"]]),
+        ("failing lazy read inside", [["call"], ["sides", s], ["data", 0], ["bogus", "read"], ["read"]]),
+        ("tapers then p()", [["call"], ["sides", s], ["ev", c["NW"], c["k"]], ["call"], ["sides", s2], ["ev", None, None], ["run"]]),
+        ("twice", [["call"], ["sides", s], ["call"], ["sides", s2], ["data", 0], ["read"], ["sides", s], ["run"]]),
+    ]
+    return [(f, ops + [["sides", s3], ["get", s2], ["read"]]) for f, ops in T]
+
+
+def _hist_case(nrng, i, cplx, odd, method, thorough):
+    """data, alternatives for re-assignment and a configuration; N >= 21 so that the shorter record still has 16 samples"""
+    N = int(nrng.integers(21, 129 if thorough else 65))
+    nfft = [N, N + 1, 2 * N, 2 * N + 1, N + 7, N + 8][int(nrng.integers(0, 6))]
+    if nfft % 2 != int(odd):
+        nfft += 1
+    kinds = [k for k in _HKINDS if (cplx or k != "czero") and (not cplx or k != "intdtype")]
+    x, dk = gen_data(nrng, N, cplx, kind=kinds[i % len(kinds)])
+    alt = lambda n, c, j: gen_data(nrng, n, c, kind=["noise", "tone", "trend", "int"][(i + j) % 4])[0]
+    xs = [alt(N, cplx, 0), alt(N, not cplx, 1), alt(N - 5, cplx, 2), np.asarray(x)[::-1].copy()]
+    NW = [2.5, 2.0, 3, 4.0, 1.5, 3.5][i % 6]
+    k = [None, 3, 2, int(2 * NW)][(i // 2) % 4]
+    sampling = _SAMPLINGS[i % len(_SAMPLINGS)]
+    scale = bool((i // 3) % 2)
+    c = {"sampling": _SAMPLINGS[(i + 1 + i // 7) % len(_SAMPLINGS)], "scale": not scale, "NW": [2.0, 2.5, 3.0][i % 3],
+         "k": [2, 3, 4][(i // 3) % 3], "method": [m for m in ("unity", "eigen", "adapt") if m != method][i % 2],
+         "nfft": nfft + [1, 2, 3, 8][i % 4]}
+    if c["sampling"] == sampling:
+        c["sampling"] = 8.0
+    if c["NW"] == NW:
+        c["NW"] = 3.5
+    p = {"x": _inp(x, dk, cplx), "xs": xs, "NW": NW, "k": k, "nfft": nfft, "method": method, "sampling": sampling, "scale": scale,
+         "supplied": bool((i // 5) % 2), "nwk_too": bool((i // 10) % 2), "dkind": dk}
+    return p, c
+
+
+def _gen_history(nrng, tier):
+    thorough = tier != "quick"
+    # (1) every trigger x {real, complex} x {NFFT even, odd} x {unity, eigen, adapt}; the layout shown rotates
+    i = 0
+    half = int(nrng.integers(0, 2))
+    ntrig = len(_hist_triggers("twosided", "centerdc", "onesided", {a: 0 for a in ("sampling", "scale", "NW", "k", "method", "nfft")}))
+    for t in range(ntrig):
+        for cplx in (False, True):
+            for odd in (False, True):
+                for mi, method in enumerate(("unity", "eigen", "adapt")):
+                    i += 1
+                    if not thorough and (t + mi + int(cplx) + int(odd) + half) % 2:
+                        continue                 # quick: one half of the grid (which half depends on the seed)
+                    p, c = _hist_case(nrng, i, cplx, odd, method, thorough)
+                    r = (i + int(nrng.integers(0, 3))) % 3
+                    s, s2, s3 = _SIDES[r], _SIDES[(r + 1 + i % 2) % 3], _SIDES[(r + 2 - i % 2) % 3]
+                    if cplx:
+                        # complex data: 'onesided' is refused once a psd exists; keep one such history per trigger and method
+                        s2 = s2 if s2 != "onesided" else "centerdc"
+                        if s == "onesided" and odd:
+                            s = "centerdc"
+                    fam, ops = _hist_triggers(s, s2, s3, c)[t]
+                    if fam.startswith("tapers"):
+                        p["supplied"] = p["nwk_too"] = True      # NW, k given as well: they are in use once the tapers are removed
+                    if p["supplied"]:
+                        # supplied tapers have the length of the record: same-length data only, and NW / k are not in use
+                        ops = [(["data", 0] if o == ["data", 2] else o) for o in ops]
+                    if cplx:
+                        ops = [o for o in ops if o != ["get", "onesided"]]
+                    p.update(ops=ops, family=fam)
+                    yield ("history", p)
+    # (2) random histories over the same alphabet
+    for j in range(30 if not thorough else 300):
+        i += 1
+        cplx, odd, method = bool(j % 2), bool((j // 2) % 2), ("unity", "eigen", "adapt")[j % 3]
+        p, c = _hist_case(nrng, i, cplx, odd, method, thorough)
+        p["supplied"] = False
+        ops = []
+        cur_cplx = cplx
+        pending = False          # a plain attribute (NW, k, method, tapers) was assigned: an explicit evaluation must follow
+        for _ in range(int(nrng.integers(3, 11))):
+            u = int(nrng.integers(0, 16))
+            if pending or u == 0:
+                ops.append([["call"], ["run"]][int(nrng.integers(0, 2))])
+                pending = False
+            elif u <= 5:
+                s = (_SIDES + ["default"])[int(nrng.integers(0, 4))]
+                ops.append(["sides", s])
+            elif u == 6:
+                ops.append(["read"])
+            elif u == 7:
+                s = _SIDES[int(nrng.integers(0, 3 if not cur_cplx else 2))]
+                ops.append(["get", s])
+            elif u == 8:
+                d = int(nrng.integers(0, 4))
+                ops.append(["data", d])
+                cur_cplx = np.iscomplexobj(p["xs"][d])
+            elif u == 9:
+                ops.append(["sampling", _SAMPLINGS[int(nrng.integers(0, len(_SAMPLINGS)))]])
+            elif u == 10:
+                ops.append(["scale", bool(nrng.integers(0, 2))])
+            elif u == 11:
+                ops.append(["nfft", p["nfft"] + int(nrng.integers(0, 9))])
+            elif u == 12:
+                ops.append([["NW", [2.0, 2.5, 3.0, 4][int(nrng.integers(0, 4))]], ["k", int(nrng.integers(2, 5))],
+                            ["method", ("unity", "eigen", "adapt")[int(nrng.integers(0, 3))]]][int(nrng.integers(0, 3))])
+                pending = True
+            elif u == 13:
+                ops.append(["attrs"])
+            elif u == 14:
+                ops.append(["bogus", ["call", "read"][int(nrng.integers(0, 2))]])
+            else:
+                ops.append(["call"])
+        if pending:
+            ops.append(["run"])
+        p.update(ops=ops, family="random")
+        yield ("history", p)
 
 
 def gen(rng, nrng, tier):
@@ -433,3 +933,5 @@ def gen(rng, nrng, tier):
         nfft = [N, N + 1, 2 * N, 2 * N + 1, N + 7][(i + i // 5) % 5]
         yield ("pmtm", {"x": _inp(x, dk, cplx), "NW": NW, "k": k,
                         "nfft": nfft, "method": methods[i % 3], "supplied": bool(i % 2), "dkind": dk})
+    # operation histories on one object (last: the random streams of the cases above are as they were)
+    yield from _gen_history(nrng, tier)
